@@ -2,7 +2,7 @@
 from . import servefam
 from .c03 import TRUSTED
 
-THEOREMS = ["Goag.Serve.serve_exactly_one_response", "Goag.Serve.secured_one_final", "Goag.Serve.opHandler_one_final", "Goag.Serve.runProgC_eq", "Goag.Serve.runProgC_never_panics", "Goag.Serve.stripBaseC_safe", "Goag.Serve.splitPathC_safe", "Goag.Serve.splitPathC_parts"]
+THEOREMS = ["Goag.Serve.serve_exactly_one_response", "Goag.Serve.secured_one_final", "Goag.Serve.opHandler_one_final", "Goag.Serve.runProgC_eq", "Goag.Serve.runProgC_never_panics", "Goag.Serve.stripBaseC_safe", "Goag.Serve.splitPathC_safe", "Goag.Serve.splitPathC_parts", "Goag.Serve.splitPathC_spec", "Goag.Serve.splitSlashAux_step", "Goag.Serve.peel_eq_split"]
 FACETS = [("route", [], "route")]
 RULE = "same corpus as C03 (random well-formed template sets x methods x base forms x typed path parameters x cors x single-scheme security; enumerated + template-directed + near-miss request paths, random handler/middleware/authenticator configuration); non-trivial = not answered by the plain not-found path; distinct by (package, method, path, projected observation)"
 
